@@ -25,10 +25,10 @@ pub fn run_schedule(ws: &[usize], sw: usize, sched: &[Value], r: &mut Rng, scale
     let total: usize = ws.iter().sum::<usize>() * scale;
     let ws: Vec<usize> = ws.iter().map(|w| w * scale).collect();
     let plain: usize = ws[..sw].iter().sum();
-    let p = r.bytes(total);
+    let mut p = r.bytes(total);
     let mut secret = [0u8; 16];
     secret.copy_from_slice(&r.bytes(16));
-    let refstream = reference(&p, plain, &secret);
+    let mut refstream = reference(&p, plain, &secret);
     let waker = Waker::noop();
     let mut cx = Context::from_waker(waker);
 
@@ -42,15 +42,28 @@ pub fn run_schedule(ws: &[usize], sw: usize, sched: &[Value], r: &mut Rng, scale
     let (mut wi, mut off, mut rep) = (0usize, 0usize, 0usize);
     let mut accepted: Vec<u8> = vec![];
     let mut wpolls = vec![];
-    for s in sched.iter().filter(|s| s["op"] == "w") {
+    for s in sched.iter().filter(|s| s["op"] == "w" || s["op"] == "wv" || s["op"] == "abandon") {
         if wi >= ws.len() {
             break;
+        }
+        if s["op"] == "abandon" {
+            // the caller gives up on the bytes it offered (nothing of them was reported written) and will offer others
+            let fresh = r.bytes(total - rep);
+            p[rep..].copy_from_slice(&fresh);
+            refstream = reference(&p, plain, &secret);
+            continue;
         }
         let k = s["k"].as_u64().unwrap_or(0) as usize * scale;
         let pending = s["out"] == "pending";
         end.plan_writes(vec![if pending { WriteOutcome::Pending } else { WriteOutcome::Accept(k) }]);
         let buf = &p[rep..rep - off + ws[wi]];
-        let res = Pin::new(&mut cs).poll_write(&mut cx, buf);
+        let sp = (s["sp"].as_u64().unwrap_or(0) as usize * scale).min(buf.len());
+        let res = if s["op"] == "wv" {
+            let slices = [std::io::IoSlice::new(&buf[..sp]), std::io::IoSlice::new(&buf[sp..])];
+            Pin::new(&mut cs).poll_write_vectored(&mut cx, &slices)
+        } else {
+            Pin::new(&mut cs).poll_write(&mut cx, buf)
+        };
         let got = match res {
             Poll::Pending => {
                 end.release_write();
@@ -64,6 +77,35 @@ pub fn run_schedule(ws: &[usize], sw: usize, sched: &[Value], r: &mut Rng, scale
         off += got;
         wpolls.push(json!({"out": if matches!(res, Poll::Pending) { "pending" } else { "accept" }, "rep": rep, "acc": accepted.len(),
                            "match": common_prefix(&accepted, &refstream)}));
+        if off >= ws[wi] {
+            wi += 1;
+            off = 0;
+            if wi == sw && sw > 0 {
+                let (e, d) = create_ciphers(&secret).unwrap();
+                cs.set_encryption(Some(e), Some(d));
+            }
+        }
+    }
+
+    // a vectored write may have been taken slice by slice, so that the plan ran out before the bytes did: the rest is written
+    // with plain polls that the transport accepts completely
+    let mut guard = 0;
+    while wi < ws.len() && guard < 100_000 {
+        guard += 1;
+        end.plan_writes(vec![WriteOutcome::Accept(usize::MAX)]);
+        let buf = &p[rep..rep - off + ws[wi]];
+        let res = Pin::new(&mut cs).poll_write(&mut cx, buf);
+        let got = match res {
+            Poll::Ready(Ok(n)) => n,
+            _ => 0,
+        };
+        accepted.extend(end.take_out());
+        rep += got;
+        off += got;
+        wpolls.push(json!({"out": "accept", "rep": rep, "acc": accepted.len(), "match": common_prefix(&accepted, &refstream)}));
+        if got == 0 {
+            break;
+        }
         if off >= ws[wi] {
             wi += 1;
             off = 0;
@@ -117,23 +159,37 @@ pub fn run_schedule(ws: &[usize], sw: usize, sched: &[Value], r: &mut Rng, scale
 
 fn random_schedule(r: &mut Rng) -> (Vec<usize>, usize, Vec<Value>) {
     let nw = 1 + r.below(4) as usize;
-    let ws: Vec<usize> = (0..nw).map(|_| 1 + r.below(4096) as usize).collect();
+    // sizes around the usual buffer sizes too (4 KiB, 8 KiB, 16 KiB and beyond)
+    let ws: Vec<usize> = (0..nw)
+        .map(|_| match r.below(4) {
+            0 => [4095usize, 4096, 4097, 8192, 8193, 16384, 16385, 20000, 40000][r.below(9) as usize],
+            1 => 4097 + r.below(30000) as usize,
+            _ => 1 + r.below(4096) as usize,
+        })
+        .collect();
     let sw = r.below(nw as u64 + 1) as usize;
     let mut sched = vec![];
     for w in &ws {
         let mut left = *w;
         while left > 0 {
+            let (op, sp) = if left >= 2 && r.below(5) == 0 { ("wv", 1 + r.below(left as u64 - 1) as usize) } else { ("w", 0) };
             if r.below(4) == 0 {
-                sched.push(json!({"op": "w", "n": left, "out": "pending", "k": 0}));
+                sched.push(json!({"op": op, "n": left, "out": "pending", "k": 0, "sp": sp}));
+                if r.below(3) == 0 {
+                    sched.push(json!({"op": "abandon", "n": left, "out": "-", "k": 0, "sp": 0}));
+                }
                 continue;
             }
-            let k = match r.below(3) {
-                0 => 1,
-                1 => left,
+            // (single-byte progress only on small remainders: every poll encrypts the whole offered buffer)
+            let k = match r.below(4) {
+                0 if left <= 2048 => 1,
+                0 => [1024usize, 4096, 8192][r.below(3) as usize].min(left),
+                1 | 2 => left,
                 _ => 1 + r.below(left as u64) as usize,
             };
-            sched.push(json!({"op": "w", "n": left, "out": "accept", "k": k}));
-            left -= k;
+            sched.push(json!({"op": op, "n": left, "out": "accept", "k": k, "sp": sp}));
+            // a vectored write may be taken slice by slice: the harness follows what the stream reports, the plan is only an upper bound
+            left -= if op == "wv" { k.min(left) } else { k };
         }
     }
     let total: usize = ws.iter().sum();
